@@ -3,6 +3,12 @@
 #include <osmium/index/id_set.hpp>
 #include <osmium/geom/tile.hpp>
 #include <osmium/osm/location.hpp>
+#include <osmium/handler/check_order.hpp>
+#include <osmium/builder/attr.hpp>
+#include <osmium/util/delta.hpp>
+#include <osmium/osm/item_type.hpp>
+#include <osmium/index/relations_map.hpp>
+#include <osmium/relations/members_database.hpp>
 #include <cstdio>
 #include <cstdint>
 int main() {
@@ -15,4 +21,85 @@ int main() {
     for (auto x : cs) for (auto y : cs) { osmium::Location l{x, y}; std::printf("lv %d %d %d %d %d %d\n", x, y, int(l.valid()), int(l.is_defined()), int(l.is_undefined()), int(bool(l))); }
     const uint64_t is[] = {0, 1, 7, 8, 255, 33554431, 33554432, 33554433, 4294967295ULL, 4294967296ULL, 18446744073709551615ULL};
     for (auto i : is) std::printf("ids %lu %lu %lu %u\n", i, osmium::index::IdSetDense<uint64_t>::chunk_id(i), osmium::index::IdSetDense<uint64_t>::offset(i), osmium::index::IdSetDense<uint64_t>::bitmask(i));
+
+    // ---- phase 2: state transformers, switch, loops (tools/x2l_st.py) ----
+    {   // CheckOrder: every sequence of length <= 3 over 3 kinds x 5 ids; outcome + members after each call
+        const int64_t cid[] = {0, 3, -3, 7, -9};
+        osmium::memory::Buffer buf{1 << 16, osmium::memory::Buffer::auto_grow::yes};
+        size_t off[3][5];
+        for (int i = 0; i < 5; ++i) {
+            using namespace osmium::builder::attr;
+            off[0][i] = osmium::builder::add_node(buf, _id(cid[i]));
+            off[1][i] = osmium::builder::add_way(buf, _id(cid[i]));
+            off[2][i] = osmium::builder::add_relation(buf, _id(cid[i]));
+        }
+        for (int n = 0; n < 15 * 15 * 15; ++n) {
+            osmium::handler::CheckOrder co;
+            int c[3] = {n % 15, (n / 15) % 15, n / 225};
+            std::printf("co");
+            for (int k = 0; k < 3; ++k) {
+                int kind = c[k] / 5, i = c[k] % 5, thrown = 0;
+                try {
+                    if (kind == 0) co.node(buf.get<osmium::Node>(off[0][i]));
+                    else if (kind == 1) co.way(buf.get<osmium::Way>(off[1][i]));
+                    else co.relation(buf.get<osmium::Relation>(off[2][i]));
+                } catch (const osmium::out_of_order_error&) { thrown = 1; }
+                std::printf(" %d:%ld:%d:%ld,%ld,%ld,%d%d%d", kind, cid[i], thrown, co.m_max_node_id, co.m_max_way_id, co.m_max_relation_id,
+                            int(co.m_has_node), int(co.m_has_way), int(co.m_has_relation));
+                if (thrown) break;
+            }
+            std::printf("\n");
+        }
+    }
+    {   // delta coding (inputs on which the C++ arithmetic does not overflow)
+        const int64_t v64[] = {0, 5, -5, 0, INT64_MAX, 0, INT64_MIN + 1, -1, INT64_MIN, -4611686018427387904LL, 4611686018427387903LL};
+        osmium::DeltaEncode<int64_t, int64_t> e64; osmium::DeltaDecode<int64_t, int64_t> d64;
+        for (auto v : v64) { const int64_t d = e64.update(v); std::printf("de64 %ld %ld %ld %ld\n", v, d, e64.value(), d64.update(d)); }
+        const uint32_t v32[] = {0, 1, 2147483647u, 0, 5, 2147483647u, 2147483646u, 7};
+        osmium::DeltaEncode<uint32_t, int32_t> e32; osmium::DeltaEncode<uint32_t, int64_t> e3264; osmium::DeltaEncode<int32_t, int32_t> ei32;
+        for (auto v : v32) std::printf("de32 %u %d %ld %d\n", v, e32.update(v), e3264.update(v), ei32.update(static_cast<int32_t>(v)));
+        const uint32_t w32[] = {4294967295u, 0, 4294967295u, 2147483648u, 1};
+        for (auto v : w32) std::printf("deu %u %ld\n", v, e3264.update(v));
+    }
+    {   // Buffer counters: commit / rollback / clear / is_aligned and the capacity after a growing reserve_space
+        const size_t caps[] = {64, 100, 1000};
+        const size_t sizes[] = {8, 24, 56, 64, 72, 200, 1000, 5000, 100000};
+        for (auto c : caps) for (auto n : sizes) for (auto m : sizes) {
+            osmium::memory::Buffer b{c, osmium::memory::Buffer::auto_grow::yes};
+            b.reserve_space(n);
+            const size_t r1 = b.commit();
+            b.reserve_space(m);
+            std::printf("buf %lu %lu %lu : %lu %lu %lu %lu %d", c, n, m, r1, b.capacity(), b.written(), b.committed(), int(b.is_aligned()));
+            b.rollback();
+            std::printf(" %lu %lu", b.written(), b.committed());
+            const size_t r2 = b.clear();
+            std::printf(" %lu %lu %lu\n", r2, b.written(), b.committed());
+        }
+    }
+    for (int c = -128; c < 128; ++c) std::printf("cit %d %u\n", c, unsigned(osmium::char_to_item_type(static_cast<char>(c))));
+    for (unsigned t = 0; t < 300; ++t) std::printf("itc %u %d\n", t, int(osmium::item_type_to_char(static_cast<osmium::item_type>(t))));
+    for (unsigned i = 0; i < 3; ++i) std::printf("nwr %u %u %u\n", i, unsigned(osmium::nwr_index_to_item_type(i)), osmium::item_type_to_nwr_index(osmium::nwr_index_to_item_type(i)));
+    {   // element ordering and kv_pair ordering / narrowing
+        using element = osmium::relations::MembersDatabaseCommon::element;
+        const int64_t mids[] = {-2, 0, 5};
+        const size_t nums[] = {0, 1, SIZE_MAX};
+        const size_t poss[] = {0, 9};
+        for (auto a1 : mids) for (auto a2 : nums) for (auto a3 : poss) for (auto b1 : mids) for (auto b2 : nums) for (auto b3 : poss) {
+            const element a{a3, a1, a2}; const element b{b3, b1, b2};
+            std::printf("el %ld %lu %lu %ld %lu %lu %d %d\n", a1, a2, a3, b1, b2, b3, int(a < b), int(a.is_removed()));
+        }
+        using kv32 = osmium::index::detail::flat_map<uint64_t, uint32_t, uint64_t, uint32_t>::kv_pair;
+        const uint64_t ks[] = {0, 1, 4294967295ULL, 4294967296ULL, 4294967297ULL, 18446744073709551615ULL};
+        for (auto k1 : ks) for (auto v1 : ks) for (auto k2 : ks) for (auto v2 : ks) {
+            const kv32 a{k1, v1}; const kv32 b{k2, v2};
+            std::printf("kv %lu %lu %lu %lu %u %u %d %d\n", k1, v1, k2, v2, a.key, a.value, int(a < b), int(a == b));
+        }
+    }
+    {   // bit-field write
+        osmium::memory::Buffer buf{1024};
+        using namespace osmium::builder::attr;
+        osmium::Node& nd = buf.get<osmium::Node>(osmium::builder::add_node(buf, _id(1)));
+        const uint32_t vs[] = {0, 1, 2147483647u, 2147483648u, 2147483649u, 4294967295u};
+        for (auto v : vs) for (int d = 0; d < 2; ++d) { nd.set_deleted(d != 0); nd.set_version(v); std::printf("sv %u %d %u %d\n", v, d, nd.version(), int(nd.deleted())); }
+    }
 }
